@@ -114,6 +114,7 @@ func v1Locked(w *World, lv *lockedView) {
 
 type v1Oracle struct {
 	prop string
+	seen map[uint64]bool
 	pre  struct {
 		kind               string
 		vault              vaulttypes.Vault
@@ -157,6 +158,17 @@ func (o *v1Oracle) Before(w *World, ev *Event) {
 		o.pre.kind, o.pre.vault, o.pre.collDenom = "liquidate", v, in.Denom
 		total := v.AmountOut.Add(v.InterestAccumulated).Add(v.ClosingFeeAccumulated)
 		o.pre.verdict, o.pre.detail = w.crVerdict(v.ExtendedPairVaultID, v.AmountIn, total)
+		if o.pre.verdict == "band" {
+			// inside the rounding band of the 18-decimal representation the module's own ratio function decides which side
+			// the vault is on ("at or above the ratio" is the safe side)
+			if ep, ok := w.App.AssetKeeper.GetPairsVault(ctx, v.ExtendedPairVaultID); ok {
+				if cr, err := w.App.VaultKeeper.CalculateCollateralizationRatio(ctx, v.ExtendedPairVaultID, v.AmountIn, total); err == nil && cr.GTE(ep.MinCr) {
+					o.pre.verdict = "SAFE"
+					o.pre.detail += fmt.Sprintf(" (module ratio %s)", cr)
+					w.Stats.Probe("c09.v1_msg_on_vault_exactly_at_the_ratio")
+				}
+			}
+		}
 		o.pre.nAuctions = len(w.App.AuctionKeeper.GetDutchAuctions(ctx, v.AppId))
 		o.pre.vaultBal = w.ModBal(vaulttypes.ModuleName, in.Denom)
 		o.pre.aucBal = w.ModBal(auctiontypes.ModuleName, in.Denom)
@@ -201,6 +213,24 @@ func (o *v1Oracle) After(w *World, ev *Event, res Result) *Violation {
 			}
 			if a.InflowTokenCurrentAmount.IsPositive() {
 				claims = claims.Add(a.InflowTokenCurrentAmount)
+			}
+			// a v1 auction is created inside a transaction: its start price is the collateral's oracle price in force in this
+			// block times the configured premium (buffer), its end price the start price times the configured cusp
+			if o.seen == nil {
+				o.seen = map[uint64]bool{}
+			}
+			if !o.seen[a.AuctionId] {
+				o.seen[a.AuctionId] = true
+				if ap, ok := w.App.AuctionKeeper.GetAuctionParams(ctx, a.AppId); ok && a.StartTime.Equal(w.Hdr.Time) {
+					if tw, ok := w.App.MarketKeeper.GetTwa(ctx, a.AssetOutId); ok && tw.IsPriceActive {
+						want := ap.Buffer.Mul(sdk.NewDec(int64(tw.Twa)))
+						w.Stats.Probe("c10.v1_start_price_checked")
+						if !a.OutflowTokenInitialPrice.Equal(want) || !a.OutflowTokenEndPrice.Equal(want.Mul(ap.Cusp)) {
+							return &Violation{Property: "C10", OracleID: "c10.v1_start_price", Signature: "start_or_end_price!=oracle_x_premium",
+								Detail: fmt.Sprintf("v1 dutch auction %d: collateral oracle price %d, premium %s, cusp %s: start price %s (expected %s), end price %s (expected %s)", a.AuctionId, tw.Twa, ap.Buffer, ap.Cusp, a.OutflowTokenInitialPrice, want, a.OutflowTokenEndPrice, want.Mul(ap.Cusp))}
+						}
+					}
+				}
 			}
 			if a.OutflowTokenCurrentPrice.GT(a.OutflowTokenInitialPrice) || a.OutflowTokenCurrentPrice.LT(a.OutflowTokenEndPrice) {
 				return &Violation{Property: "C10", OracleID: "c10.v1_price_range", Signature: "price_outside_start_end",
